@@ -8,6 +8,7 @@ import (
 	"encoding/binary"
 	"encoding/hex"
 	"fmt"
+	"math/big"
 	"sort"
 	"strings"
 
@@ -135,7 +136,10 @@ func (e *env) judgeSet(what, finding string, got, want []string, allowed map[str
 		return
 	}
 	if same && ordered {
-		b.Violation(fmt.Sprintf("%s: right elements in the wrong order", what), map[string]any{"got": got, "want": want, "after": e.detail(r)})
+		// the statement promises the contents, not their order: values come back in the order of their raw keys, which
+		// is the order of arrival only up to the 255th value of one (epoch, peer) pair (the 256th is stored under the
+		// sequence number 0x0001, which sorts first). Counted as an observation, never a verdict.
+		b.Hit("observation:values-returned-out-of-arrival-order")
 		return
 	}
 	// every expected element present?
@@ -520,6 +524,57 @@ func (e *env) estPut(epoch int64, cid []byte, live bool, node *keys.PrivateKey, 
 
 func estRender(from []byte, size int64) string { return fmt.Sprintf("%x/%d", from, size) }
 
+// estHugeEpochs: estimations for epoch numbers that need 8 and 9 bytes as NeoVM integers (2^63-1, 2^63,
+// 2^64-1), outside the int64 model of the sweeps: a self-contained probe — put by a node of the previous map,
+// then the iterator and the list+get API must both return exactly that entry (seeded change C20-7).
+func (e *env) estHugeEpochs() {
+	b := e.b
+	var node *keys.PrivateKey
+	for _, n := range e.nodes {
+		if e.inPrevMap(n.PublicKey().Bytes()) {
+			node = n
+			break
+		}
+	}
+	if node == nil {
+		return
+	}
+	pub := node.PublicKey().Bytes()
+	cid := e.cids[0]
+	for i, ep := range []*big.Int{new(big.Int).SetUint64(1<<63 - 1), new(big.Int).SetUint64(1 << 63), new(big.Int).SetUint64(1<<64 - 1)} {
+		size := int64(7000 + i)
+		r := e.w.Invoke([]world.SignerSpec{world.G(world.Single(node))}, e.cn, "putContainerSize", ep, cid, size, pub)
+		b.Tx(1)
+		if !r.Halted() {
+			b.Observe(fmt.Sprintf("putContainerSize for the %d-bit epoch is refused", ep.BitLen()))
+			continue
+		}
+		want := estRender(pub, size)
+		ids := e.w.Read(e.cn, "listContainerSizes", ep)
+		found := 0
+		for _, idh := range itemsHex(ids.Top()) {
+			id, _ := hex.DecodeString(idh)
+			g := e.w.Read(e.cn, "getContainerSize", id)
+			f := world.Arr(g.Top())
+			if !g.OK() || len(f) != 2 {
+				b.Violation(fmt.Sprintf("getContainerSize does not answer for an id listed under epoch %s: %s", ep, g.Err), e.detail(r))
+				continue
+			}
+			for _, es := range world.Arr(f[1]) {
+				if ef := world.Arr(es); len(ef) == 2 && estRender(world.Bytes(ef[0]), world.Int64(ef[1])) == want {
+					found++
+				}
+			}
+		}
+		if !ids.OK() || found != 1 {
+			b.Violation(fmt.Sprintf("an estimation put under epoch %s is returned %d times by listContainerSizes + getContainerSize (%s)", ep, found, ids.Err), e.detail(r))
+		}
+		b.Read(2)
+		b.Hit("estimation-under-a-9-byte-epoch")
+		b.Eval(fmt.Sprintf("est.huge|bits%d", ep.BitLen()), true)
+	}
+}
+
 func (e *env) estSweep(tr *world.TxResult) {
 	for _, ep := range epochPool {
 		prefix := "cnr" + string(enc(ep))
@@ -900,6 +955,9 @@ func runC20(b *runner.Batch) {
 	e.cfgOp(true, []byte("KK"), []byte("2"), 0)
 	e.cfgOp(false, []byte("K"), []byte("3"), 0)
 
+	if b.Index%12 == 3 {
+		defer e.estHugeEpochs()
+	}
 	// a few batches stack values on one key past the encoding boundaries of the sequence number
 	if b.Index%24 == 7 {
 		n := 130
@@ -1002,7 +1060,7 @@ func init() {
 			return 144
 		},
 		Chunk: 4,
-		Floors: []string{"reputation.put", "audit.put", "audit.put-refused-non-member", "reputation-values-on-one-key>=128", "audit.put-outsider-result-co-signed-by-a-member", "audit.put-right-after-inner-ring-rotation", "estimation.put", "estimation-refused-node-outside-previous-map", "estimation-node-cleanup-fired", "estimation-node-cleanup-boundary-kept",
+		Floors: []string{"reputation.put", "audit.put", "audit.put-refused-non-member", "reputation-values-on-one-key>=128", "estimation-under-a-9-byte-epoch", "audit.put-outsider-result-co-signed-by-a-member", "audit.put-right-after-inner-ring-rotation", "estimation.put", "estimation-refused-node-outside-previous-map", "estimation-node-cleanup-fired", "estimation-node-cleanup-boundary-kept",
 			"estimation-total-cleanup-fired", "estimation-total-cleanup-boundary-kept", "neofsid.addKey", "neofsid.removeKey", "netmap.setConfig", "neofs.setConfig"},
 		Run: runC20,
 	})
